@@ -12,10 +12,14 @@ import (
 )
 
 type c04Case struct {
-	Program *sl.Program `json:"program"`
+	Program *sl.Program `json:"program,omitempty"`
 	Text    string      `json:"text"`
 	Req     *sl.Req     `json:"req"`
 	Reps    int         `json:"reps"`
+	// Disturbers are unrelated requests run on the long-lived WAF between repetitions (outcome ignored).
+	Disturbers []*sl.Req `json:"disturbers,omitempty"`
+	// NoModel: the reference is the first run on a fresh WAF instead of the model (rule sets with ctl actions).
+	NoModel bool `json:"no_model,omitempty"`
 }
 
 // orderSignature captures the order in which one run delivered its match data (the adversary's move).
@@ -39,12 +43,25 @@ func c04Judge(w *fw.W, c *c04Case) bool {
 		return false
 	}
 	defer sl.CloseWAF(long)
-	exp := sl.Run(c.Program, c.Req)
-	if exp.Ambiguous != "" {
-		// the outcome legitimately depends on visiting order (or the model cannot decide): not judged
-		w.Count("ambiguous_skipped", 1)
-		w.Cover("ambiguous_reasons", exp.Ambiguous)
-		return true
+	var exp *sl.Result
+	if c.NoModel {
+		f, err := sl.BuildText(c.Text)
+		if err != nil {
+			return false
+		}
+		first := sl.Exec(f, c.Req)
+		sl.CloseWAF(f)
+		r := first.Result
+		exp = &r
+		w.Count("pairs_judged_against_fresh_waf_reference", 1)
+	} else {
+		exp = sl.Run(c.Program, c.Req)
+		if exp.Ambiguous != "" {
+			// the outcome legitimately depends on visiting order (or the model cannot decide): not judged
+			w.Count("ambiguous_skipped", 1)
+			w.Cover("ambiguous_reasons", exp.Ambiguous)
+			return true
+		}
 	}
 	opts := sl.CompareOpts{TX: true}
 	orders := map[string]int{}
@@ -61,6 +78,11 @@ func c04Judge(w *fw.W, c *c04Case) bool {
 				return true
 			}
 			waf = f
+		}
+		if !fresh && len(c.Disturbers) > 0 {
+			// unrelated traffic on the long-lived WAF before the repetition
+			sl.Exec(waf, c.Disturbers[i%len(c.Disturbers)])
+			w.Count("disturber_transactions", 1)
 		}
 		w.Trace(c)
 		got := sl.Exec(waf, c.Req)
@@ -91,7 +113,9 @@ func c04Judge(w *fw.W, c *c04Case) bool {
 		}
 		sort.Strings(kinds)
 		class := "outcome-varies-between-repetitions:" + sl.DiffKind(firstDiff)
-		if good == 0 {
+		if c.NoModel {
+			class = "outcome-differs-from-fresh-waf:" + sl.DiffKind(firstDiff)
+		} else if good == 0 {
 			class = "outcome-differs-from-model-in-every-repetition:" + sl.DiffKind(firstDiff)
 		}
 		w.Violation(class, "repetition-differential+reference-model", c, exp, firstBad,
@@ -100,12 +124,31 @@ func c04Judge(w *fw.W, c *c04Case) bool {
 	return true
 }
 
+// c04SteerReq steers a random subset of the C05 configuration's rules (single-valued arguments only, so the
+// outcome is independent of map order).
+func c04SteerReq(r gen.R) *sl.Req {
+	req := &sl.Req{Method: "GET", Path: "/c04", Status: 200, RespHeaders: []sl.KV{{K: "Content-Type", V: "text/plain"}}}
+	for _, s := range c05Steers {
+		if gen.Chance(r, 0.15) {
+			v := "1"
+			if s == "cap" {
+				v = "abc"
+			}
+			req.Get = append(req.Get, sl.KV{K: s, V: v})
+		}
+	}
+	if gen.Chance(r, 0.5) {
+		req.RespHeaders = append(req.RespHeaders, sl.KV{K: "X-R", V: "1"})
+	}
+	return req
+}
+
 func init() {
 	fw.Register(&fw.Prop{
 		ID: "C04", Level: "exploration",
-		Rule: "rule sets from three generators (matching core, lists sharing transformation prefixes, counters/thresholds) x requests with names repeated within and across collections (2-8 keys per collection) are each executed N times, alternating a long-lived WAF and a freshly built one; every repetition's order-independent outcome (interruption, ordered fired ids, per-rule match-data multisets, counters) must equal the reference outcome, i.e. all repetitions agree. The runtime's per-iteration map order is the adversary and is measured: the order in which match data arrived is recorded per repetition. Non-trivial: the pair showed at least two different arrival orders; distinct by (rule-set text, request).",
+		Rule: "rule sets from three generators (matching core, lists sharing transformation prefixes, counters/thresholds) x requests with names repeated within and across collections (2-8 keys per collection) are each executed N times, alternating a long-lived WAF (with unrelated disturber transactions in between) and a freshly built one; a fourth population uses a fully steerable configuration rich in ctl/skip/allow state with the first fresh-WAF run as reference; every repetition's order-independent outcome (interruption, ordered fired ids, per-rule match-data multisets, counters) must equal the reference outcome, i.e. all repetitions agree. The runtime's per-iteration map order is the adversary and is measured: the order in which match data arrived is recorded per repetition. Non-trivial: the pair showed at least two different arrival orders; distinct by (rule-set text, request).",
 		Assumptions: []string{"observables that legitimately depend on which value of a multi-valued collection is visited first/last (captures, %{MATCHED_VAR} assignments after several matches, messages) are identified by the reference model and not compared; cases whose control flow depends on them are skipped and counted"},
-		Required:    []string{"pairs_with_varying_iteration_order", "pairs"},
+		Required:    []string{"pairs_with_varying_iteration_order", "pairs", "disturber_transactions", "pairs_judged_against_fresh_waf_reference"},
 		Plan: func(tier fw.Tier, seed int64) []fw.Batch {
 			n := 16
 			if tier == fw.Thorough {
@@ -123,6 +166,17 @@ func init() {
 				progs, reqs, reps = 300, 6, 128
 			}
 			for i := 0; i < progs; i++ {
+				if i%4 == 3 {
+					// fully steerable configuration rich in ctl / skip / allow state (shared with C05); reference = fresh WAF
+					for j := 0; j < reqs; j++ {
+						c := &c04Case{Text: c05Config, NoModel: true, Reps: reps, Req: c04SteerReq(w.Rng)}
+						for k := 0; k < 3; k++ {
+							c.Disturbers = append(c.Disturbers, c04SteerReq(w.Rng))
+						}
+						c04Judge(w, c)
+					}
+					continue
+				}
 				var p *sl.Program
 				var mk func() *sl.Req
 				switch i % 3 {
@@ -135,7 +189,7 @@ func init() {
 				}
 				text := p.Render()
 				for j := 0; j < reqs; j++ {
-					c := &c04Case{Program: p, Text: text, Req: mk(), Reps: reps}
+					c := &c04Case{Program: p, Text: text, Req: mk(), Reps: reps, Disturbers: []*sl.Req{mk(), mk()}}
 					if !c04Judge(w, c) {
 						break
 					}
